@@ -443,6 +443,52 @@ def run(ctx):
                    % (mn_, short(ast.parse(worst[0], mode='eval').body, 60) if worst else '', worst[1] if worst else 0,
                       ' & '.join(worst[2].cond_src())[-100:] if worst else ''), construct=mn_ + ': renders once')
 
+    # ---- R07l: constructs parsed by a legacy arguments parser may have no arguments object at all
+    ctx.rule('R07l', 'a text replacement callable registered for a macro/environment whose walker specification uses a legacy '
+                     'args_parser (\\verb, verbatim, lstlisting: nodeargd is None when their argument is unterminated) reads '
+                     'node.nodeargd only under a non-None fact', 0)
+    legacy_names = set()
+    for tbl_ in (wt.macros, wt.environments):
+        for nm_, e_ in tbl_.items():
+            if 'args_parser' in getattr(e_['rec'], 'kwargs', {}) and not isinstance(e_['rec'].kwargs['args_parser'], str):
+                legacy_names.add(nm_)
+    ctx.analysed['legacy_args_parser_names'] = sorted(legacy_names)
+    from .. import grules as _gr
+    n_lg = 0
+    for e_ in lt.all_entries:
+        if e_['name'] not in legacy_names or not isinstance(e_['repl'], tables.Fn):
+            continue
+        fnode_ = e_['repl'].node
+        for x_ in ast.walk(fnode_):
+            if isinstance(x_, ast.Attribute) and isinstance(x_.value, ast.Attribute) and x_.value.attr == 'nodeargd':
+                n_lg += 1
+                bt_ = unparse(x_.value)
+                facts_ = [(unparse(t_), p_) for t_, p_ in atomic_facts(x_)] + \
+                         [(unparse(t_), p_) for t_, p_ in _gr.short_circuit_facts(x_)]
+                ok_ = any((t_ == bt_ + ' is not None' and p_) or (t_ == bt_ + ' is None' and not p_) or (t_ == bt_ and p_)
+                          for t_, p_ in facts_)
+                ctx.decide('R07l', ok_, lt.mod if hasattr(lt, 'mod') else m, enclosing_stmt(x_) or x_,
+                           '%s: %s read under a non-None fact' % (e_['name'], short(x_, 40)),
+                           'the replacement registered for %r reads %s, but the walker parses %r with a legacy arguments '
+                           'parser: when its argument is unterminated (\\verb|abc at the end of the input) the node has '
+                           'nodeargd None and latex_to_text raises AttributeError' % (e_['name'], short(x_, 50), e_['name']),
+                           construct='replacement of %s: %s' % (e_['name'], short(x_, 40)))
+    ctx.holds('R07l', m, None, '%d nodeargd read(s) in replacements of the %d legacy-parsed names' % (n_lg, len(legacy_names)),
+              construct='legacy-parsed names scan', trivial=True)
+    # ---- R07m: delimiters of a group node are strings
+    ctx.rule('R07m', 'every LatexGroupNode is built with string delimiters (latex2text concatenates them): no None', 3)
+    for mod_ in sorted(repo.modules.values(), key=lambda m_: m_.name):
+        for c_ in ast.walk(mod_.tree):
+            if isinstance(c_, ast.Call) and call_name(c_) in ('make_node', 'LatexGroupNode') and (
+                    call_name(c_) == 'LatexGroupNode' or (c_.args and unparse(c_.args[0]).endswith('LatexGroupNode'))):
+                d_ = kwarg(c_, 'delimiters')
+                if isinstance(d_, (ast.Tuple, ast.List)):
+                    bad_ = [e2 for e2 in d_.elts if isinstance(e2, ast.Constant) and not isinstance(e2.value, str)]
+                    ctx.decide('R07m', not bad_, mod_, c_, 'delimiters %s are strings' % short(d_, 30),
+                               'a group node is built with delimiters=%s: latex2text concatenates the delimiters with the '
+                               'contents when keep_braced_groups applies (minlen 0 keeps every group), which raises '
+                               'TypeError for None' % short(d_, 30), construct='%s: group delimiters %s' % (mod_.relpath, short(d_, 30)))
+
     return 'other', (
         'Exception-escape analysis of latex_to_text (tolerant configuration), crash-construct rules '
         'G1-G9 on every function reachable from it (including the default replacement callables), a '
